@@ -279,3 +279,8 @@ def starved(merged, tier):
 def precheck():
     from vlib.calibrate import calibrate
     return calibrate()
+
+
+def shard_env(i, n):
+    """one shard in four runs the daemon code with DEBUG set in its environment (tracing decorators)"""
+    return {'DEBUG': '1'} if i % 4 == 3 else None
